@@ -392,4 +392,65 @@ def ATable.run (T : ATable) (fs : List (List Rat → Rat)) : List Query → List
   | [] => []
   | q :: qs => (T.answer fs q).2 :: ATable.run (T.answer fs q).1 fs qs
 
+/-! ### vocabulary of the specification -/
+
+/-- well-formed grid: at least two points per axis and a non-degenerate interval -/
+def WF (axes : List Axis) : Prop := ∀ a ∈ axes, 2 ≤ a.npt ∧ a.low < a.high
+
+/-- base point and resolution of the adaptive table laid over the grid of a standard table -/
+def lows (axes : List Axis) : List Rat := axes.map (·.low)
+def hs (axes : List Axis) : List Rat := axes.map (·.h)
+
+/-- no coordinate of the point lies on an upper face of the box -/
+def offUpper : List Axis → List Rat → Bool
+  | a :: as, x :: xs => decide (x < a.high) && offUpper as xs
+  | _, _ => true
+
+/-- a query the standard table accepts: `d` coordinates per point, all points in the closed box -/
+def Query.inBox (axes : List Axis) (q : Query) : Prop :=
+  ∀ x ∈ q.points, x.length = axes.length ∧ PorepyVerif.C41.inBox axes x = true
+
+/-- gradient queries avoid the upper faces of the box (where the two tables use different cells) -/
+def Query.gradOffUpper (axes : List Axis) : Query → Prop
+  | .interp _ => True
+  | .grad xs _ => ∀ x ∈ xs, offUpper axes x = true
+
+/-- the differentiation axis exists -/
+def Query.axisOk (d : Nat) : Query → Prop
+  | .interp _ => True
+  | .grad _ k => k < d
+
+/-- the exact answers for multilinear components: values, resp. partial derivatives -/
+def exactAnswer (ts : List ML) : Query → Except Err (List (List Rat))
+  | .interp xs => .ok (ts.map (fun t => xs.map t.eval))
+  | .grad xs k => .ok (ts.map (fun t => xs.map (t.deriv k)))
+
+/-- `v` is a multi-index of the grid -/
+def inGrid : List Axis → List Int → Prop
+  | a :: as, i :: is => 0 ≤ i ∧ i < (a.npt : Int) ∧ inGrid as is
+  | [], [] => True
+  | _, _ => False
+
+/-- geometric well-formedness of an adaptive table -/
+structure Geo (T : ATable) : Prop where
+  hb : T.basePt.length = T.h.length
+  hne : ∀ hk ∈ T.h, hk ≠ 0
+
+/-- the row of a component `f` when the vertices `K` are stored (in this order) -/
+def rowOf (bp h : List Rat) (K : List Coord) (f : List Rat → Rat) : Store :=
+  K.map (fun i => (i, f (coordOf bp h i)))
+
+/-- Storage invariant: every component row holds exactly the vertices `K`, in the same order, with the
+    function values at their coordinates; `_pt` holds their coordinates in the same order. -/
+structure Inv (fs : List (List Rat → Rat)) (T : ATable) (K : List Coord) : Prop where
+  rows : T.rows = fs.map (rowOf T.basePt T.h K)
+  pt : T.pt = K.map (coordOf T.basePt T.h)
+  nodup : K.Nodup
+  len : ∀ i ∈ K, i.length = T.h.length
+
+/-- `Σ c_k x_k` -/
+def dotQ : List Rat → List Rat → Rat
+  | c :: cs, x :: xs => c * x + dotQ cs xs
+  | _, _ => 0
+
 end PorepyVerif.C41
